@@ -381,22 +381,36 @@ def module_level_binders(tree):
     return out
 
 
+_MODULE_CACHE = {}      # (path, source) -> per-module analysis of the oracle (independent of the other modules)
+
+
 def project_keys(files):
     """{(path, token id): key} for every identifier token of every module, and {path: module observation};
     None when a module cannot be analysed"""
-    shared = Shared()
     mods = {}
     for path in sorted(files):
         if not path.endswith(".py"):
             continue
-        m = observe_module(path, files[path], shared)
+        m = _MODULE_CACHE.get((path, files[path]))
         if m is None:
+            m = observe_module(path, files[path], Shared())
+            if m is not None:
+                try:
+                    m.key, m.cat, m.info = c02_lib.oracle(files[path], m.tr, m.tokens)
+                except (SyntaxError, AssertionError, KeyError, ValueError):
+                    m = None
+            if m is not None:
+                m.binders = module_level_binders(m.tr.tree)
+                m.varkey = c02_lib.scoping_keys(m)      # plain symtable resolution, imports not looked through
+                m.aliased = set()
+                for n in ast.walk(m.tr.tree):
+                    if isinstance(n, (ast.Import, ast.ImportFrom)):
+                        m.aliased.update(a.asname for a in n.names if a.asname)
+            if len(_MODULE_CACHE) > 4000:
+                _MODULE_CACHE.clear()
+            _MODULE_CACHE[(path, files[path])] = m if m is not None else False
+        if not m:
             return None
-        try:
-            m.key, m.cat, m.info = c02_lib.oracle(files[path], m.tr, m.tokens)
-        except (SyntaxError, AssertionError, KeyError, ValueError):
-            return None
-        m.binders = module_level_binders(m.tr.tree)
         mods[path] = m
     by_name = {m.name: m for m in mods.values()}
 
@@ -428,7 +442,13 @@ def project_keys(files):
             return ("noattr", a, y)
         imps = [b[1] for b in bs if b[0] == "import"]
         if imps and len(imps) == len(bs) and len(set(imps)) == 1:
-            return entity(imps[0], fuel - 1)
+            e = imps[0]
+            imported = e[1].split(".")[0] if e[0] == "mod" else e[3]
+            if imported != y:
+                return ("var", a, (), y)        # an alias: a binding of module a in its own right
+            if y in m.aliased:
+                return "U"
+            return entity(e, fuel - 1)
         if imps:
             return "U"          # bound by an import and by something else
         return ("var", a, (), y)
@@ -446,11 +466,20 @@ def project_keys(files):
                 if (tuple(k[1]), t.name) in m.info.mixed:
                     g = "U"
             elif k[0] == "ent":
+                # the token denotes something bound by an import statement.  It is the imported entity itself when
+                # the statement has no alias (module and importer must agree on the spelling: one binding for the
+                # purposes of renaming) or when the token is the name after `import` of an aliased from-import;
+                # otherwise it is the importer's own alias binding
                 e = k[1]
-                if e[0] == "mod":
-                    g = entity(("mod", e[2]))
+                imported = e[2].split(".")[0] if e[0] == "mod" else e[3]
+                ent = entity(("mod", e[2])) if e[0] == "mod" else entity(("name", e[1], e[2], e[3]))
+                if t.kind == "KImportName" or (t.name == imported and t.name not in m.aliased):
+                    g = ent
+                elif t.name != imported:
+                    vk = m.varkey.get(t.id)
+                    g = ("var", m.name, tuple(vk[1]), t.name) if isinstance(vk, tuple) and vk[0] == "var" else "U"
                 else:
-                    g = entity(("name", e[1], e[2], e[3]))
+                    g = "U"
             else:
                 g = "U"
             keys[(path, t.id)] = g
@@ -465,29 +494,34 @@ def project_keys(files):
     return keys, mods
 
 
-def rename_key(k, target, new_name, mod_map):
-    """the key a binding key becomes when the binding `target` is renamed (alpha-renaming of the keys)"""
+def shape_of(k, mod_map):
+    """what must be preserved of a binding key by an alpha-renaming: everything but the name of a variable
+    (the module part follows the resource moves)"""
+    def mm(a):
+        for old, new in mod_map.items():
+            if a == old:
+                return new
+            if a.startswith(old + "."):
+                return new + a[len(old):]
+        return a
     if not isinstance(k, tuple):
         return k
-    if target[0] == "var":
-        return ("var", k[1], k[2], new_name) if k == target else k
-    if target[0] == "mod":
-        def mm(a):
-            for old, new in mod_map.items():
-                if a == old:
-                    return new
-                if a.startswith(old + "."):
-                    return new + a[len(old):]
-            return a
-        if k[0] == "mod":
-            return ("mod", mm(k[1]))
-        if k[0] in ("var", "noattr"):
-            return (k[0], mm(k[1])) + tuple(k[2:])
+    if k[0] == "var":
+        return ("var", mm(k[1]), k[2])
+    if k[0] == "mod":
+        return ("mod", mm(k[1]))
+    if k[0] == "noattr":
+        return ("noattr", mm(k[1]), k[2])
     return k
 
 
 def alpha_check(old_keys, new_files, target, new_name, moves):
-    """list of verdicts (strings) - empty when the new project is the alpha-renaming of the old one.
+    """list of verdicts (strings) - empty when the new project is an alpha-renaming of the old one in which the
+    target binding carries the new name:
+      * there is ONE map phi from the old bindings to the new ones such that every token that denoted b denotes
+        phi(b) (same definition as before), phi is injective (nothing captured, nothing merged), phi keeps the owner
+        scope of a variable and maps builtins, external names and `unbound` to themselves;
+      * phi(target) is spelled new_name.
     old_keys: project_keys of the old tree (keys dict, mods)."""
     keys0, mods0 = old_keys
     r = project_keys(new_files)
@@ -501,18 +535,39 @@ def alpha_check(old_keys, new_files, target, new_name, moves):
         else:
             mod_map[a.replace("/", ".")] = b.replace("/", ".")
     out = []
+    phi, inv = {}, {}
     for (path, tid), k0 in sorted(keys0.items()):
         p1 = path_after(path, moves)
+        t = mods0[path].by_id[tid]
+        where = "%s:%d:%d %r" % (path, t.line, t.col, t.name)
         if (p1, tid) not in keys1:
-            out.append("token %d of %s has no counterpart in the renamed project" % (tid, path))
+            out.append("%s has no counterpart in the renamed project" % where)
             continue
         k1 = keys1[(p1, tid)]
+        if k1 == "U" and k0 != "U" and t.kind in ("KKwArg", "KAttr"):
+            # the keyword named a parameter of a known callee / the attribute an attribute of a known class or
+            # module, and does so no more
+            out.append("%s: denoted %r, now names nothing that can be determined" % (where, k0))
+            continue
         if k0 == "U" or k1 == "U":
             continue
-        want = rename_key(k0, target, new_name, mod_map)
-        if k1 != want:
-            t = mods0[path].by_id[tid]
-            out.append("%s:%d:%d %r: binding %r became %r (expected %r)" % (path, t.line, t.col, t.name, k0, k1, want))
+        if shape_of(k0, mod_map) != shape_of(k1, {}):
+            out.append("%s: denoted %r, now denotes %r" % (where, k0, k1))
+            continue
+        if k0 in phi and phi[k0] != k1:
+            out.append("%s: the binding %r is split: %r and %r" % (where, k0, phi[k0], k1))
+            continue
+        if k1 in inv and inv[k1] != k0:
+            out.append("%s: the bindings %r and %r are merged into %r" % (where, inv[k1], k0, k1))
+            continue
+        phi[k0] = k1
+        inv[k1] = k0
+    if target in phi:
+        k1 = phi[target]
+        if target[0] == "var" and k1[3] != new_name:
+            out.append("the renamed binding %r is still spelled %r" % (target, k1[3]))
+        if target[0] == "mod" and k1[1].split(".")[-1] != new_name:
+            out.append("the renamed module %r is now %r" % (target, k1[1]))
     return out
 
 
@@ -556,10 +611,10 @@ def g_obs(o):
     return "(OChanges %s [%s] %s)" % ("true" if o["local"] is True else "false", edits, g_ids(o["moved"]))
 
 
-def g_case(p, queries):
+def g_case(p, queries, fresh="qq"):
     """queries: [(module index, token id, new name is a keyword, reduced observation)]"""
     idents = sorted({t.name for m in p.mods for t in m.tokens} | {"len", "__init__", "__call__", "staticmethod",
-                                                                  "classmethod"} | {m.name for m in p.flat})
+                                                                  "classmethod", "property"} | {m.name for m in p.flat})
     bi = [x for x in idents if x in BUILTINS]
     qs = ";\n  ".join("{| q_mod := %d%%N; q_tok := %d%%N; q_kw := %s; q_obs := %s |}" % (
         j, tid, "true" if kw else "false", g_obs(o)) for (j, tid, kw, o) in queries)
@@ -568,10 +623,11 @@ def g_case(p, queries):
     sh = p.shared
     special = (sh.g("__init__"), sh.g("__call__"), sh.gl(["staticmethod", "classmethod"]))
     return ("{| c_mods := [\n  %s];\n c_builtins := %s; c_idents := %s;\n c_init := %s; c_call := %s; c_odd := %s;\n"
-            " c_queries := [\n  %s] |}" % (mods, sh.gl(bi), sh.gl(idents), special[0], special[1], special[2], qs))
+            " c_prop := %s; c_fresh := %s;\n c_queries := [\n  %s] |}" % (mods, sh.gl(bi), sh.gl(idents), special[0], special[1],
+                                                                      special[2], sh.g("property"), sh.g(fresh), qs))
 
 
 HEADER = ("From Coq Require Import List NArith Bool.\nImport ListNotations.\n"
           "From RopeVerif.C15 Require Import Syntax Scoping RopeScopes Fragment.\n"
           "From RopeVerif.C02 Require Import Occurrences.\n"
-          "From RopeVerif.C01 Require Import Collector Rename Runner.\n")
+          "From RopeVerif.C01 Require Import Collector Rename OccTree AlphaSpec Runner.\n")
